@@ -302,8 +302,8 @@ def build(x):
             let g = self.interpolator->Interp2D_0;
             let sx = clampr(conv_SpeedUnit(speed_unit, self.speed_unit, speed@), rv(g.x@, 0), rv(g.x@, g.x@.len() - 1));
             let gy = clampr(conv_GradeUnit(grade_unit, self.grade_unit, grade@), rv(g.y@, 0), rv(g.y@, g.y@.len() - 1));
-            assert(f64_real(verif_pt@[0]) == sx);
-            assert(f64_real(verif_pt@[1]) == gy);
+            /*verif:obligation (the model is evaluated at the speed converted to ITS unit and clamped to the grid)*/ assert(f64_real(verif_pt@[0]) == sx);
+            /*verif:obligation (... and at the grade converted to its unit and clamped)*/ assert(f64_real(verif_pt@[1]) == gy);
             assert(energy_rate@ == f64_real(y));
             let (i, j) = choose|i: int, j: int| #[trigger] g.cell_ok(i, j, f64_real(verif_pt@[0]), f64_real(verif_pt@[1]), f64_real(y));
             assert(g.cell_ok(i, j, sx, gy, energy_rate@));
